@@ -107,6 +107,15 @@ def sites_in(func_node, btext, offs):
             if isinstance(n, (ast.If, ast.While)):
                 add("TRUE", t, "True", "condition `%s` -> True" % _u(t)[:60])
                 add("FALSE", t, "False", "condition `%s` -> False" % _u(t)[:60])
+        # ---- quantifier narrowing: "for every" -> "for some" (an extra condition exempts items / only the first item is visited)
+        if isinstance(n, (ast.For, ast.AsyncFor)):
+            it = n.iter
+            add("FIRST", it, "list(%s)[:1]" % _u(it), "visit only the first of `%s`" % _u(it)[:50])
+            for st in ast.walk(n):
+                if isinstance(st, ast.If) and st is not n:
+                    t = st.test
+                    add("NARROW", t, "((%s) and _narrowed_())" % _u(t), "extra condition on `%s` (loop over %s)" % (_u(t)[:40], _u(it)[:30]))
+                    add("WIDEN", t, "((%s) or _widened_())" % _u(t), "extra alternative on `%s` (loop over %s)" % (_u(t)[:40], _u(it)[:30]))
         if isinstance(n, ast.BoolOp):
             other = ast.Or if isinstance(n.op, ast.And) else ast.And
             m = copy.copy(n)
